@@ -267,6 +267,10 @@ def attr_mult(body):
 class Fail(Exception):
     pass
 
+
+def is_keyword_like(lit):
+    return re.fullmatch(r'[^\d\W]\w*', lit) is not None
+
 @dataclass
 class Tok:
     kind: str      # 'lit' | 're' | base type name
@@ -304,8 +308,10 @@ class Ctx:
         return self.ws
 
 class RefParser:
-    def __init__(self, g, text, skipws=True, ws=None, emulate=()):
+    def __init__(self, g, text, skipws=True, ws=None, emulate=(), ignore_case=False, autokwd=False):
         self.g = g
+        self.ignore_case = ignore_case
+        self.autokwd = autokwd
         self.emulate = set(emulate)
         self.t = text
         self.base_ctx = Ctx(skipws, ws if ws is not None else '\t\n\r ')
@@ -388,12 +394,18 @@ class RefParser:
         t = self.t
         if isinstance(e, Lit):
             p = self.skip(pos, ctx)
-            if t.startswith(e.s, p):
-                return p + len(e.s), [self.mk(Tok('lit', e.s, p, p + len(e.s)), ctx, pos)]
+            n = len(e.s)
+            ok = (t[p:p + n].lower() == e.s.lower()) if self.ignore_case else t.startswith(e.s, p)
+            if ok and self.autokwd and is_keyword_like(e.s) and p + n < len(t) and re.match(r'\w', t[p + n]):
+                ok = False      # keyword-like literals match on word boundaries only
+            if ok:
+                tk = self.mk(Tok('lit', e.s, p, p + n), ctx, pos)
+                tk.written = t[p:p + n]
+                return p + n, [tk]
             raise Fail()
         if isinstance(e, Re):
             p = self.skip(pos, ctx)
-            m = re.compile(e.pat, re.M).match(t, p)
+            m = re.compile(e.pat, re.M | (re.I if self.ignore_case else 0)).match(t, p)
             if not m:
                 raise Fail()
             return m.end(), ([self.mk(Tok('re', m.group(), p, m.end(), m), ctx, pos)] if m.end() > p else [])
@@ -628,6 +640,10 @@ class Builder:
 
     def tokval(self, tok):
         if tok.kind == 'lit':
+            # under ignore_case the property leaves open whether a string literal's value is the grammar's
+            # spelling or the text as written: 'lit-as-written' / 'kwlit-as-written' select the other readings
+            if 'lit-as-written' in self.emulate or ('kwlit-as-written' in self.emulate and is_keyword_like(tok.text)):
+                return getattr(tok, 'written', tok.text)
             return tok.text
         if tok.kind == 're':
             if self.urg and tok.m.re.groups == 1:
